@@ -1,4 +1,5 @@
 """C10 - DNS messages stay coherent under parsing, editing and name compression (DESIGN.md section 4, C10)."""
+import random
 import time
 
 import vlib
@@ -34,6 +35,26 @@ def run(tier):
         refuted.append(m)
     edits, _ = vlib.tlc_generate("dns/DNSGen", "DNSGen_q.cfg" if quick else "DNSGen_t.cfg", timeout=2400)
     faults, _ = vlib.tlc_generate("dns/DNSFaultGen", "DNSFaultGen.cfg", timeout=900)
+    # concretisation (DESIGN 2.5): the model's record data are a few fixed values; in two of three scenarios the inserted
+    # A / AAAA / TXT data and the TTLs are replaced by values from the classes a text or length conversion distinguishes
+    # (one, two and three digit octets with a zero in any place, 0 and 255; zero runs in an IPv6 address; empty and long text)
+    rng = random.Random(vlib.seed())
+    OCT = [0, 1, 9, 10, 11, 19, 20, 90, 99, 100, 101, 105, 109, 110, 111, 119, 120, 190, 199, 200, 201, 205, 209, 210, 249, 250, 255]
+    for i, sc in enumerate(edits):
+        if i % 3 == 0:
+            continue
+        for ed in sc["edits"]:
+            r = ed["rec"]
+            if r.get("t") == 1 and len(r.get("v", [])) == 4:
+                r["v"] = [rng.choice(OCT) if rng.random() < 0.8 else rng.randrange(256) for _ in range(4)]
+            elif r.get("t") == 28 and len(r.get("v", [])) == 16:
+                k = rng.randrange(4)
+                r["v"] = ([rng.randrange(256) for _ in range(16)] if k == 0 else
+                          [0] * 16 if k == 1 else
+                          [rng.choice([0, 0, 0, 1, 0xff, rng.randrange(256)]) for _ in range(16)] if k == 2 else
+                          [0] * 10 + [0xff, 0xff] + [rng.choice(OCT) for _ in range(4)])
+            if "ttl" in r and rng.random() < 0.5:
+                r["ttl"] = rng.choice([0, 1, 255, 256, 65535, 65536, 0x7fffffff])
     p = vlib.Pipeline(PROP, "dns_edit", "dns/DNSTrace")
     chunk = 20000
     for i in range(0, len(edits), chunk):
